@@ -289,12 +289,13 @@ func c09present(x *X, s *lifeSlot, chunk int, hist string, modified, restarted b
 		x.Probe("presented-after-restart")
 	}
 	for _, ep := range verifyEPs {
-		for _, key := range []int{sg.key, other, -1} {
+		impostor := 100 + other*10 + sg.key
+		for _, key := range []int{sg.key, other, -1, impostor} {
 			isLib := ep == epLib || ep == epLibSig
 			// expectation
 			exp := "" // "ok", "fail" or "" (not asserted)
 			switch {
-			case key == other:
+			case key == other || key == impostor:
 				exp = "fail"
 			case key == -1 && !isLib:
 				exp = "fail" // the CLI paths require a key
@@ -308,7 +309,7 @@ func c09present(x *X, s *lifeSlot, chunk int, hist string, modified, restarted b
 				exp = "ok"
 			}
 			ok, detail, panicked := verifyVia(x, ep, s.env, key, chunk)
-			keyName := map[int]string{sg.key: "signer", other: "other", -1: "none"}[key]
+			keyName := map[int]string{sg.key: "signer", other: "other", -1: "none", impostor: "impostor-with-signers-kid"}[key]
 			x.Case(H([]byte(hist)) + "|" + ep + "|" + keyName)
 			if modified {
 				x.R.Nontrivial = true
@@ -322,7 +323,7 @@ func c09present(x *X, s *lifeSlot, chunk int, hist string, modified, restarted b
 				x.Violate("rejects-signed:"+ep+":"+keyName, "entry point %s with the %s key refused an envelope whose header still contains everything that was signed and which validates: %s\n  history: %s", ep, keyName, detail, hist)
 			case exp == "fail" && ok:
 				reason := "key=" + keyName
-				if key != other && !(key == -1 && !isLib) {
+				if key != other && key != impostor && !(key == -1 && !isLib) {
 					if !covers {
 						reason = "signed " + field + " differs"
 					} else {
@@ -336,7 +337,7 @@ func c09present(x *X, s *lifeSlot, chunk int, hist string, modified, restarted b
 			}
 			if exp == "fail" && !ok {
 				switch {
-				case key == other:
+				case key == other || key == impostor:
 					x.Probe("must-fail-wrong-key")
 				case !covers && field == "digest":
 					x.Probe("must-fail-digest-after-recalc")
